@@ -65,7 +65,7 @@ Verdicts(e) ==
   ELSE IF ~e.out.accepted THEN {}
   ELSE LET gate == {IF e.out.http.metrics = 404 /\ e.doc.debug.addr = "ok" /\ e.doc.debug.prometheus THEN "c17-metrics-route-missing" ELSE "ok",
                     IF e.out.http.metrics # 404 /\ ~(e.doc.debug.addr = "ok" /\ e.doc.debug.prometheus) THEN "c17-metrics-served-although-disabled" ELSE "ok",
-                    IF (e.out.http.pprof # 404) # (e.doc.debug.addr = "ok" /\ e.doc.debug.pprof) THEN "c17-pprof-gating-wrong" ELSE "ok",
+                    IF e.out.http.pprof # (IF e.doc.debug.addr = "ok" /\ e.doc.debug.pprof THEN 200 ELSE 404) THEN "c17-pprof-gating-wrong" ELSE "ok",
                     IF e.out.http.root # 200 \/ e.out.http.nope # 404 THEN "c17-basic-routes-wrong" ELSE "ok"}
            metrics == IF e.autoerr THEN (IF e.out.gather.ok THEN {"c17-scrape-succeeded-although-a-state-read-fails"} ELSE {})
                       ELSE IF AnyErr(e) THEN (IF e.out.gather.ok THEN {"c17-scrape-succeeded-although-ra-generation-fails"} ELSE {})
